@@ -630,6 +630,32 @@ pub fn gen_gds_lib(rng: &mut Rng, malform: u64, big: bool) -> GdsLibrary {
                         _ => (ox + rng.range(-1, w as i64 + 1) as i32, oy + rng.range(-1, h as i64 + 1) as i32),
                     });
                 }
+                2 if rng.coin() => {
+                    // monotone staircases (2–3 steps, rising or falling, any start vertex and direction) and star-shaped
+                    // general polygons; the label is level with one of the vertices, anywhere from one unit left of the
+                    // bounding box to one unit right of it: outside points whose ray passes THROUGH a vertex
+                    let mut q: Vec<(i32, i32)> = if rng.coin() {
+                        let steps = 2 + rng.below(2) as i32;
+                        let (sx, sy) = (rng.range(2, 6) as i32, rng.range(2, 5) as i32);
+                        let mut v = vec![(0, 0), (steps * sx, 0)];
+                        for k in (0..steps).rev() { v.push(((k + 1) * sx, (steps - k) * sy)); v.push((k * sx, (steps - k) * sy)); }
+                        if rng.coin() { v = v.iter().map(|p| (steps * sx - p.0, p.1)).collect(); }
+                        if rng.coin() { v = v.iter().map(|p| (p.0, steps * sy - p.1)).collect(); }
+                        v
+                    } else {
+                        let n = 4 + rng.below(4) as usize;
+                        (0..n).map(|k| { let a = (k as f64 + 0.1 + 0.8 * (rng.below(100) as f64 / 100.0)) / n as f64 * std::f64::consts::TAU; let r = rng.range(3, 12) as f64; (12 + (r * a.cos()).round() as i32, 12 + (r * a.sin()).round() as i32) }).collect()
+                    };
+                    q.dedup();
+                    if rng.coin() { q.reverse(); }
+                    let nq = q.len();
+                    q.rotate_left(rng.below(nq as u64) as usize);
+                    let v = q[rng.below(nq as u64) as usize];
+                    let (minx, maxx) = (q.iter().map(|p| p.0).min().unwrap(), q.iter().map(|p| p.0).max().unwrap());
+                    q.push(q[0]);
+                    s.elems.push(GdsElement::GdsBoundary(GdsBoundary { layer, datatype: dt, xy: q.iter().map(|p| GdsPoint::new(p.0 + ox, p.1 + oy)).collect(), ..Default::default() }));
+                    label_at = Some((ox + rng.range(minx as i64 - 1, maxx as i64 + 1) as i32, oy + v.1));
+                }
                 2 => { let a = rng.range(6, 16) as i32; let w = 2; let pts = vec![(0, 0), (0, a), (w, a), (w, w), (a - w, w), (a - w, a), (a, a), (a, 0), (0, 0)];
                     s.elems.push(GdsElement::GdsBoundary(GdsBoundary { layer, datatype: dt, xy: pts.iter().map(|p| GdsPoint::new(p.0 + ox, p.1 + oy)).collect(), ..Default::default() }));
                     label_at = Some(if rng.coin() { (ox + 1, oy + 1) } else { (ox + a / 2, oy + a / 2) }); }
